@@ -393,7 +393,7 @@ func TestC11Free(t *testing.T) {
 // ---- C02: a cancelled Lock leaves no trace, also when the internal mutex is contended ----
 
 func TestC02Free(t *testing.T) {
-	drive(t, "C02", "one RWMutex whose read lock is held by the harness for the whole case; goroutine 0 is the only writer: each of its ops is Lock(write) with a context that is cancelled concurrently (the call can only return context.Canceled), followed at once by a read TryLock; 1..9 further goroutines keep the lock's internal mutex busy with read TryLock/Lock+release; oracle: the cancelled write Lock returns context.Canceled, and the read TryLock issued right after its return succeeds (no writer holds or waits any more, so the cancelled call must not be counted); at the end, after every release, a write TryLock succeeds; non-trivial iff >= 2 goroutines; distinct by program", 20,
+	drive(t, "C02", "one RWMutex whose read lock is held by the harness for the whole case; goroutine 0 is the only writer: each of its ops is Lock(write) with a context that is cancelled concurrently (the call can only return context.Canceled), followed at once by a read TryLock; 1..9 further goroutines keep the lock's internal mutex busy with read TryLock/Lock+release and paired Lock/Unlock on one shared RLocker; oracle: the cancelled write Lock returns context.Canceled, and the read TryLock issued right after its return succeeds (no writer holds or waits any more, so the cancelled call must not be counted); at the end, after every release, a write TryLock succeeds; non-trivial iff >= 2 goroutines; distinct by program", 20,
 		func(cs Case, v *ev.Verdict) {
 			f := &failer{v: v}
 			var rw csync.RWMutex
@@ -403,6 +403,7 @@ func TestC02Free(t *testing.T) {
 				return
 			}
 			var writerDone atomic.Bool
+			rl := rw.RLocker()
 			parallel(len(cs.G), func(g int) {
 				if g == 0 {
 					defer writerDone.Store(true)
@@ -444,6 +445,18 @@ func TestC02Free(t *testing.T) {
 				for _, op := range cs.G[g] {
 					if writerDone.Load() {
 						return
+					}
+					if op%5 == 4 {
+						// one RLocker value shared by all goroutines: paired Lock / Unlock
+						// (a short burst: the Locker's own bookkeeping is contended, too)
+						for i := 0; i <= op%40; i++ {
+							rl.Lock()
+							if (op+i)%8 == 0 {
+								runtime.Gosched()
+							}
+							rl.Unlock()
+						}
+						continue
 					}
 					if op%2 == 0 {
 						if r, ok := rw.TryLock(false); ok {
@@ -1109,6 +1122,62 @@ func TestC17Free(t *testing.T) {
 		})
 }
 
+// TestC17FreeWide: many short functions plus one slow one, several callers at once; the
+// call's own bookkeeping (started / running counters) is what is contended here.
+func TestC17FreeWide(t *testing.T) {
+	drive(t, "C17", "2..10 goroutines each issue 1..8 CallConcurrently calls with a live context and 16..64 functions: all return nil at once except one that yields 0..4 times and then returns an error (3 of 4 calls) or nil; oracle: the result is that function's error (nil iff it returned nil), a nil result comes only after every function has returned, and every function runs exactly once; a call that never returns shows as a stalled case; non-trivial iff >= 2 goroutines; distinct by program", 8,
+		func(cs Case, v *ev.Verdict) {
+			f := &failer{v: v}
+			parallel(len(cs.G), func(g int) {
+				for _, code := range cs.G[g] {
+					n := 16 + code%49
+					slow := (code / 3) % n
+					var want error
+					if code%4 != 0 {
+						want = fmt.Errorf("slow-%d-%d", g, code)
+					}
+					runs := make([]atomic.Int32, n)
+					var returned atomic.Int32
+					fns := make([]ccall.CallConcurrentlyFunc, n)
+					for i := range fns {
+						fns[i] = func(ctx context.Context) error {
+							defer returned.Add(1)
+							runs[i].Add(1)
+							if i == slow {
+								for k := 0; k < code%5; k++ {
+									runtime.Gosched()
+								}
+								return want
+							}
+							return nil
+						}
+					}
+					got := ccall.CallConcurrently(context.Background(), fns...)
+					if r := int(returned.Load()); got == nil && r != n {
+						f.add("C17", "ccall:nil-before-all-returned", "CallConcurrently returned nil with a live context while only %d of %d functions had returned", r, n)
+						return
+					}
+					if got != want {
+						sig := "ccall:wrong-error"
+						if got == nil {
+							sig = "ccall:nil-despite-failure"
+						}
+						f.add("C17", sig, "CallConcurrently over %d functions returned %v, the only function that fails returned %v", n, got, want)
+						return
+					}
+					// (after an error the call may return before the other functions have run)
+					waitUntil(func() bool { return int(returned.Load()) == n })
+					for i := range runs {
+						if r := runs[i].Load(); r != 1 {
+							f.add("C17", "ccall:invocation-count", "function %d of %d ran %d times, want exactly once", i, n, r)
+							return
+						}
+					}
+				}
+			})
+		})
+}
+
 // ---- C04: never two instances at once, also when the mutators run in parallel ----
 
 func TestC04Free(t *testing.T) {
@@ -1284,35 +1353,69 @@ func (c *ownCtx) Err() error {
 // ---- C03: no missed broadcast under real contention (incl. the asynchronous slow path) ----
 
 func TestC03Free(t *testing.T) {
-	drive(t, "C03", "2..10 goroutines x 1..20 ops on one Broadcast guarding a counter: increments through HoldLock / TryHoldLock (retried) / HoldLockMaybeAsync (asynchronous slow path under contention) and Wait(counter >= k) with k <= the total number of increments; oracle: every Wait returns nil having seen its predicate true, the final counter equals the number of increments; non-trivial iff >= 2 goroutines; distinct by program", 20,
+	drive(t, "C03", "2..10 goroutines x 1..20 ops on one Broadcast guarding a counter: increments (each with a broadcast) through HoldLock / TryHoldLock (retried) / HoldLockMaybeAsync (asynchronous slow path under contention), read-only sections through the same three entry points that take the wait channel and remember it with the counter value, and Wait(counter >= k) with k <= the total number of increments; oracle: every Wait returns nil having seen its predicate true, the final counter equals the number of increments, and at the start of every critical section each remembered channel is closed iff the counter has moved since it was taken; non-trivial iff >= 2 goroutines; distinct by program", 20,
 		func(cs Case, v *ev.Verdict) {
 			f := &failer{v: v}
 			var b broadcast.Broadcast
 			counter := 0
-			total := 0
+			total, nAsync := 0, 0
 			for _, prog := range cs.G {
 				for _, op := range prog {
-					if op%4 != 3 {
+					switch op % 8 {
+					case 0, 1, 7:
 						total++
-					}
-				}
-			}
-			var asyncDone atomic.Int32
-			var wwg sync.WaitGroup
-			inc := func(broadcast func(), _ func() <-chan struct{}) { counter++; broadcast() }
-			incAsync := func(broadcast func(), _ func() <-chan struct{}) { counter++; broadcast(); asyncDone.Add(1) }
-			nAsync := 0
-			for _, prog := range cs.G {
-				for _, op := range prog {
-					if op%4 == 2 {
+					case 2:
+						total++
+						nAsync++
+					case 4:
 						nAsync++
 					}
 				}
 			}
+			// wait channels taken in earlier critical sections, with the counter value at that
+			// moment; only touched inside critical sections
+			type peek struct {
+				ch  <-chan struct{}
+				gen int
+			}
+			var peeks []peek
+			verify := func() {
+				keep := peeks[:0]
+				for _, p := range peeks {
+					closed := false
+					select {
+					case <-p.ch:
+						closed = true
+					default:
+					}
+					if closed && p.gen == counter {
+						f.add("C03", "broadcast:closed-without-broadcast", "a wait channel taken at counter %d is closed although no broadcast happened since", p.gen)
+					} else if !closed && p.gen != counter {
+						f.add("C03", "broadcast:open-after-broadcast", "a wait channel taken at counter %d is still open at counter %d", p.gen, counter)
+					}
+					if p.gen == counter && len(keep) < 8 {
+						keep = append(keep, p)
+					}
+				}
+				peeks = keep
+			}
+			var asyncDone atomic.Int32
+			var wwg sync.WaitGroup
+			inc := func(broadcast func(), _ func() <-chan struct{}) { verify(); counter++; broadcast() }
+			incAsync := func(broadcast func(), _ func() <-chan struct{}) { verify(); counter++; broadcast(); asyncDone.Add(1) }
+			look := func(_ func(), getWaitCh func() <-chan struct{}) {
+				verify()
+				peeks = append(peeks, peek{getWaitCh(), counter})
+			}
+			lookAsync := func(_ func(), getWaitCh func() <-chan struct{}) {
+				verify()
+				peeks = append(peeks, peek{getWaitCh(), counter})
+				asyncDone.Add(1)
+			}
 			parallel(len(cs.G), func(g int) {
 				for _, op := range cs.G[g] {
-					switch op % 4 {
-					case 0:
+					switch op % 8 {
+					case 0, 7:
 						b.HoldLock(inc)
 					case 1:
 						for !b.TryHoldLock(inc) {
@@ -1320,6 +1423,12 @@ func TestC03Free(t *testing.T) {
 						}
 					case 2:
 						b.HoldLockMaybeAsync(incAsync)
+					case 4:
+						b.HoldLockMaybeAsync(lookAsync)
+					case 5:
+						b.HoldLock(look)
+					case 6:
+						_ = b.TryHoldLock(look)
 					default:
 						k := 0
 						if total > 0 {
@@ -1346,7 +1455,7 @@ func TestC03Free(t *testing.T) {
 			}
 			wwg.Wait() // a waiter that missed a broadcast hangs here: reported through the watchdog
 			got := -1
-			b.HoldLock(func(_ func(), _ func() <-chan struct{}) { got = counter })
+			b.HoldLock(func(_ func(), _ func() <-chan struct{}) { verify(); got = counter })
 			if got != total {
 				f.add("C03", "broadcast:lost-update", "%d increments under the lock ended at %d", total, got)
 			}
